@@ -830,9 +830,9 @@ theorem loop_bounded (c : Cfg K S σ) (hdt : 0 < c.dt) (he1 : c.eps < 1 / 2) (u0
   · intro st ⟨ha, hb⟩ _ _ _
     exact ⟨acc_halted c u0 st ha, hb⟩
 
-/-- **no_overshoot**: the run never takes more steps than `⌈T/dt - eps⌉`, on every path and for
+/-- the run never takes more steps than `⌈T/dt - eps⌉`, on every path and for
 every tracker list and schedule -/
-theorem no_overshoot (c : Cfg K S σ) (hdt : 0 < c.dt) (he1 : c.eps < 1 / 2) (u0 : S)
+theorem run_no_overshoot (c : Cfg K S σ) (hdt : 0 < c.dt) (he1 : c.eps < 1 / 2) (u0 : S)
     (trs : List (Tracker K S σ)) (fuel : Nat) :
     (runFuel c u0 trs fuel).steps ≤ finalStepCount c := by
   show (finalHandle c _).1.steps ≤ _
